@@ -18,6 +18,7 @@ from urwid.event_loop.abstract_loop import ExitMainLoop
 from urwid.event_loop.main_loop import CantUseExternalLoop
 from urwid import signals as _signals_mod
 from urwid.util import StoppingContext
+from urwid.display.common import INPUT_DESCRIPTORS_CHANGED as _common_INPUT_DESCRIPTORS_CHANGED
 
 ML = "urwid/event_loop/main_loop.py:"
 
@@ -82,7 +83,11 @@ def _real(ip, st, f, args, kwargs):
     name = getattr(f, "__name__", "")
     owner = getattr(f, "__self__", None)
     if owner is _signals_mod._signals and name in ("connect", "disconnect"):
-        st.event("signal", name)  # signal wiring of the screen: verified under C14; no effect on this property
+        # signal wiring of the screen (delivery itself: verified under C14): which signal of which object goes to which
+        # method of the loop
+        h = args[2] if len(args) > 2 else None
+        st.event("signal", name, args[0] if args else None, args[1] if len(args) > 1 else None,
+                 (getattr(getattr(h, "ref", None), "qualname", None), getattr(h, "bound", None)))
         return None
     return NotImplemented
 
@@ -103,6 +108,8 @@ class ml_start:
     raises = (CantUseExternalLoop,)
     call_real = staticmethod(_real)
     modifies = ("idle_handle",)
+    # (_reset_input_descriptors has a contract of its own below; here its body is executed: `inline=`)
+    contract_overrides = {ML + "MainLoop._reset_input_descriptors": None}
 
     def ensures(old, s, a, result):
         st = cur()
@@ -110,6 +117,12 @@ class ml_start:
         yield "screen-started-first", bool(names) and names[0] == "start"
         yield "input-hooked-and-idle-redraw-registered", "hook_event_loop" in names and "enter_idle" in names and "alarm" in names
         yield "mouse-tracking-only-if-asked", eq("set_mouse_tracking" in names, old.handle_mouse)
+        # the display may be stopped and started again while the loop runs (shelling out, suspend / resume): the
+        # screen announces that with INPUT_DESCRIPTORS_CHANGED, which must reach the re-hook
+        sig = [e[1:] for e in st.trace if e[0] == "signal"]
+        yield "descriptor-changes-of-the-screen-lead-to-a-re-hook", len(sig) == 1 and sig[0][0] == "connect" and sig[0][1] is old.screen and sig[0][2] == _common_INPUT_DESCRIPTORS_CHANGED and sig[0][3] == ("MainLoop._reset_input_descriptors", s)
+        hooks = [ev for ev in st.trace if ev[0] == "call" and ev[2] in ("hook_event_loop", "unhook_event_loop")]
+        yield "input-goes-to-MainLoop._update", len(hooks) == 2 and hooks[1][2] == "hook_event_loop" and hooks[1][3]["event_loop"] is old.event_loop and getattr(getattr(hooks[1][3]["callback"], "ref", None), "qualname", "") == "MainLoop._update"
 
     def on_raise(old, s, a, exc):
         st = cur()
@@ -139,6 +152,8 @@ class ml_stop:
         st = cur()
         names = [ev[2] for ev in st.trace if ev[0] == "call"]
         yield "hooks-removed-then-screen-stopped", names == ["remove_enter_idle", "unhook_event_loop", "stop"]
+        sig = [e[1:] for e in st.trace if e[0] == "signal"]
+        yield "re-hook-disconnected-before-the-screen-stops", len(sig) == 1 and sig[0][0] == "disconnect" and sig[0][1] is old.screen and sig[0][2] == _common_INPUT_DESCRIPTORS_CHANGED and sig[0][3] == ("MainLoop._reset_input_descriptors", s) and st.trace.index(("signal", *sig[0])) < [i for i, ev in enumerate(st.trace) if ev[0] == "call" and ev[2] == "stop"][0]
 
     log_event = "stop"
 
@@ -779,3 +794,28 @@ class scr__stop:
 class esc_scp:
     params = dict(x=Int, y=Int)
     pure_spec = staticmethod(lambda a: "\x1b[<row>;<col>H")
+
+
+# ---- input descriptors: what the event loop watches follows the screen's start / stop ("each input event is passed
+# ..." also after the display was stopped and started again inside run(): shelling out, job-control suspend / resume)
+
+@contract(ML + "MainLoop._reset_input_descriptors", property="C12", replayable=False)
+class ml_reset_input_descriptors:
+    """The handler of the screen's INPUT_DESCRIPTORS_CHANGED signal (connected by MainLoop.start)."""
+    self_shape = MAINLOOP
+
+    def requires(s, a):
+        # MainLoop.start connects it only for a screen with event-loop support (it raises CantUseExternalLoop before)
+        return PROTOCOLS["Screen"].hasattr(None, cur(), s.screen, "hook_event_loop")
+
+    def ensures(old, s, a, result):
+        st = cur()
+        calls = [e for e in st.trace if e[0] == "call"]
+        yield "old-watches-removed-then-the-screen-hooked-again", [e[2] for e in calls] == ["unhook_event_loop", "hook_event_loop"] and all(e[1] is old.screen for e in calls)
+        if len(calls) == 2:
+            yield "on-the-loops-own-event-loop", calls[0][3]["event_loop"] is old.event_loop and calls[1][3]["event_loop"] is old.event_loop
+            cb = calls[1][3]["callback"]
+            yield "input-goes-to-MainLoop._update", getattr(getattr(cb, "ref", None), "qualname", "") == "MainLoop._update" and getattr(cb, "bound", None) is s
+
+    def ensures_callee(old, s, a, result):
+        return ()
